@@ -59,7 +59,7 @@ def setup(tier):
 
 def budget(tier):
     if tier == "quick":
-        return {"examples": 2000, "shards": 1}
+        return {"examples": 1500, "shards": 1}
     return {"examples": 30000, "shards": 16}
 
 
@@ -96,6 +96,10 @@ def _tree(kind, depth):
         st.builds(lambda a, b: ["/", a, b], sub, sub),
         st.builds(lambda a, n: ["^", a, n], sub, EXPS),
         st.builds(lambda a, n: ["r", ["^", a, n], n], sub, NZ),
+        # the root of a product of powers: the root may be the first expression of the process
+        # to denote its result, and whatever it builds is the interned object from then on
+        st.builds(lambda a, b, n: ["r", ["*", ["^", a, n], ["^", b, n]], n], sub, sub, NZ),
+        st.builds(lambda a, b, n: ["r", ["/", ["^", a, n], ["^", b, n]], n], _leaf(kind), _leaf(kind), NZ),
     ]
     if kind == "unit":
         ops.append(st.builds(lambda p, a: ["p", p, a], st.sampled_from(PFX10), sub))
@@ -312,6 +316,8 @@ def _eval_side(kind, t, out, tag):
         got = SNAP.describe(obj)
         if got[0] != mv[0]:
             out.fail("C02:unit:factors", f"{model.render(t)}: factors {got[0]} != model {mv[0]}")
+        elif any(type(e) is not int for e in got[0].values()):
+            out.fail("C02:unit:factor-exponent-type", f"{model.render(t)}: factor exponents {got[0]} are not all integers")
         dim = SNAP.model_dim(mv)
         if tuple(obj.dimension.exponents) != dim:
             out.fail("C02:unit:dimension", f"{model.render(t)}: dimension {obj.dimension.exponents} != model {dim}")
